@@ -3,6 +3,8 @@ import PppModel.Lemmas.V1Blame
 import PppModel.Lemmas.AutoDetect
 import PppModel.Props.C06
 import PppModel.Lemmas.Utf8Spec
+import PppModel.Lemmas.C12Aux
+import PppModel.Props.C18
 
 /-!
 # C12 — a single malformed element is rejected terminally and blamed on the right field
@@ -220,5 +222,419 @@ example : V2.parse ((Spec.V2.encode .proxy .stream (.ipv4 ⟨⟨1,2,3,4⟩, 80, 
     .error (.version 0x30) := by decide
 example : V1.parseBytes [0x50,0x52,0x4F,0x58,0x59,0x20,0x54,0x43,0x50,0x0D,0x0A] =
     .error (.parse .invalidProtocol) := by decide
+
+/-! ## Additions: the auto-detecting entry point for version 2, short lines, grammar-level
+hypotheses, the other address family, the 107-byte limit at the text entry point, port payloads -/
+
+/-! ### version 2 through `HeaderResult::parse`
+
+Through auto-detection a corrupted binary header is handed to the text parser, whose verdict is
+terminal — but its *kind* no longer names the element: it is `InvalidPrefix` (the text window of
+an input that starts with `CR LF` has an empty first field), or `InvalidUtf8` when one of the
+first two signature bytes was replaced by a byte ≥ 0x80. -/
+
+/-- C12, "observe_at the three entry points", version 2 through `HeaderResult::parse`: an input
+that passes the signature gate and on which the binary parser reports a terminal error (version,
+command, family, transport, length) gives `V1(Err(Parse(InvalidPrefix)))`, which is terminal.
+The kind of the binary error is lost. -/
+theorem v2_blamed_auto {x : B} {e : V2.ParseError} (hg : V2.gate x = .ok ())
+    (h : V2.parse x = .error e) (he : e.isIncomplete = false) :
+    Auto.parse x = .v1 (.error (.parse .invalidPrefix)) ∧ (Auto.parse x).isIncomplete = false := by
+  have : Auto.parse x = .v1 (.error (.parse .invalidPrefix)) := by
+    rw [C06.auto_of_terminal h he, V1.Blame.parseBytes_of_gate_ok hg]
+  exact ⟨this, by rw [this]; rfl⟩
+
+/-- Non-vacuity (evaluated): a wrong version nibble through the auto-detecting parser. -/
+example : Auto.parse ((Spec.V2.encode .proxy .stream (.ipv4 ⟨⟨1,2,3,4⟩, 80, ⟨5,6,7,8⟩, 443⟩) []).set 12 0x31) =
+    .v1 (.error (.parse .invalidPrefix)) := by decide
+example : V2.gate ((Spec.V2.encode .proxy .stream (.ipv4 ⟨⟨1,2,3,4⟩, 80, ⟨5,6,7,8⟩, 443⟩) []).set 12 0x31) =
+    .ok () := by decide
+
+/-- C12, version 2 through `HeaderResult::parse`, the signature: what the auto-detecting parser
+answers when one signature byte is replaced — the text parser's `InvalidUtf8` if one of the
+first two bytes was replaced by a byte ≥ 0x80, its `InvalidPrefix` otherwise. -/
+theorem v2_signature_auto_kind (cmd : Command) (tr : Transport) (addr : Addresses) (rest trail : B)
+    (i : Nat) (v : UInt8) (hi : i < 12) (hv : v ≠ byteAt Spec.V2.signature i) :
+    Auto.parse ((Spec.V2.encode cmd tr addr rest ++ trail).set i v) =
+      .v1 (if i < 2 ∧ 0x80 ≤ v then .error .invalidUtf8 else .error (.parse .invalidPrefix)) := by
+  rw [C06.auto_of_terminal (v2_signature cmd tr addr rest trail i v hi hv) rfl,
+    V1.Blame.parseBytes_set_signature cmd tr addr rest trail i v hv]
+
+/-- C12, version 2 through `HeaderResult::parse`, the signature: terminal. (A CR of the signature
+that survives is followed by a byte, so the text parser's verdict is final, `C18`.) -/
+theorem v2_signature_auto (cmd : Command) (tr : Transport) (addr : Addresses) (rest trail : B)
+    (i : Nat) (v : UInt8) (hi : i < 12) (hv : v ≠ byteAt Spec.V2.signature i) :
+    (Auto.parse ((Spec.V2.encode cmd tr addr rest ++ trail).set i v)).isIncomplete = false := by
+  rw [C06.auto_of_terminal (v2_signature cmd tr addr rest trail i v hi hv) rfl]
+  exact C18.frozen_complete_bytes _ (V1.Blame.set_signature_text cmd tr addr rest trail i v hv).1
+
+/-- Non-vacuity (evaluated): first signature byte replaced by `P`, by `0xC3`. -/
+example : Auto.parse ((Spec.V2.encode .proxy .stream (.ipv4 ⟨⟨1,2,3,4⟩, 80, ⟨5,6,7,8⟩, 443⟩) []).set 0 0x50) =
+    .v1 (.error (.parse .invalidPrefix)) := by decide
+example : Auto.parse ((Spec.V2.encode .proxy .stream (.ipv4 ⟨⟨1,2,3,4⟩, 80, ⟨5,6,7,8⟩, 443⟩) []).set 0 0xC3) =
+    .v1 (.error .invalidUtf8) := by decide
+
+/-- The auto-detecting parser's result on `y` is complete and is not a success (of either
+version). -/
+def AutoRejected (y : B) : Prop :=
+  (Auto.parse y).isIncomplete = false ∧
+  (∀ h : V2.Header, Auto.parse y ≠ .v2 (.ok h)) ∧ (∀ h : V1.Header, Auto.parse y ≠ .v1 (.ok h))
+
+theorem autoRejected_of_eq {y : B} {e : V1.BinaryParseError} (h : Auto.parse y = .v1 (.error e))
+    (he : e.isIncomplete = false) : AutoRejected y := by
+  refine ⟨by rw [h]; exact he, fun _ hh => ?_, fun _ hh => ?_⟩
+  · rw [h] at hh; cases hh
+  · rw [h] at hh; cases hh
+
+/-- Any input that passes the signature gate and fails terminally in the binary parser is
+rejected, finally, by the auto-detecting parser, with `InvalidPrefix`. -/
+theorem v2_gate_auto {x : B} {e : V2.ParseError} (hg : V2.gate x = .ok ())
+    (h : V2.parse x = .error e) (he : e.isIncomplete = false) :
+    Auto.parse x = .v1 (.error (.parse .invalidPrefix)) ∧ AutoRejected x :=
+  ⟨(v2_blamed_auto hg h he).1, autoRejected_of_eq (v2_blamed_auto hg h he).1 rfl⟩
+
+/-- C12, "terminal at the auto-detecting entry point", for each of the six version-2 corruptions
+above (`v2_signature`, `v2_version`, `v2_command`, `v2_family`, `v2_transport`, `v2_length`,
+same hypotheses): `HeaderResult::parse` of the corrupted input is complete and is not a success;
+for the five corruptions behind the signature it is exactly `V1(Err(Parse(InvalidPrefix)))`. -/
+theorem v2_corruptions_auto (cmd : Command) (tr : Transport) (addr : Addresses) (rest trail : B) :
+    (∀ (i : Nat) (v : UInt8), i < 12 → v ≠ byteAt Spec.V2.signature i →
+      AutoRejected ((Spec.V2.encode cmd tr addr rest ++ trail).set i v)) ∧
+    (∀ b : UInt8, b &&& 0xF0 ≠ 0x20 →
+      Auto.parse ((Spec.V2.encode cmd tr addr rest ++ trail).set 12 b) = .v1 (.error (.parse .invalidPrefix)) ∧
+      AutoRejected ((Spec.V2.encode cmd tr addr rest ++ trail).set 12 b)) ∧
+    (∀ b : UInt8, b &&& 0xF0 = 0x20 → (b &&& 0x0F ≠ 0 ∧ b &&& 0x0F ≠ 1) →
+      Auto.parse ((Spec.V2.encode cmd tr addr rest ++ trail).set 12 b) = .v1 (.error (.parse .invalidPrefix)) ∧
+      AutoRejected ((Spec.V2.encode cmd tr addr rest ++ trail).set 12 b)) ∧
+    (∀ b : UInt8, (b &&& 0xF0 ≠ 0x00 ∧ b &&& 0xF0 ≠ 0x10 ∧ b &&& 0xF0 ≠ 0x20 ∧ b &&& 0xF0 ≠ 0x30) →
+      Auto.parse ((Spec.V2.encode cmd tr addr rest ++ trail).set 13 b) = .v1 (.error (.parse .invalidPrefix)) ∧
+      AutoRejected ((Spec.V2.encode cmd tr addr rest ++ trail).set 13 b)) ∧
+    (∀ b : UInt8, (b &&& 0xF0 = 0x00 ∨ b &&& 0xF0 = 0x10 ∨ b &&& 0xF0 = 0x20 ∨ b &&& 0xF0 = 0x30) →
+      (b &&& 0x0F ≠ 0 ∧ b &&& 0x0F ≠ 1 ∧ b &&& 0x0F ≠ 2) →
+      Auto.parse ((Spec.V2.encode cmd tr addr rest ++ trail).set 13 b) = .v1 (.error (.parse .invalidPrefix)) ∧
+      AutoRejected ((Spec.V2.encode cmd tr addr rest ++ trail).set 13 b)) ∧
+    (∀ l : Nat, l < 65536 → l < Spec.V2.familySize addr.family →
+      Auto.parse (((Spec.V2.encode cmd tr addr rest ++ trail).set 14 (UInt8.ofNat (l / 256))).set 15
+        (UInt8.ofNat (l % 256))) = .v1 (.error (.parse .invalidPrefix)) ∧
+      AutoRejected (((Spec.V2.encode cmd tr addr rest ++ trail).set 14 (UInt8.ofNat (l / 256))).set 15
+        (UInt8.ofNat (l % 256)))) := by
+  have hg := (encode_fixed cmd tr addr rest trail).1
+  refine ⟨fun i v hi hv => ?_, fun b hv => ?_, fun b hv hc => ?_, fun b hf => ?_, fun b hf ht => ?_,
+    fun l hl16 hl => ?_⟩
+  · have h1 := C06.auto_of_terminal (v2_signature cmd tr addr rest trail i v hi hv) rfl
+    obtain ⟨hfz, hno⟩ := V1.Blame.set_signature_text cmd tr addr rest trail i v hv
+    refine ⟨by rw [h1]; exact C18.frozen_complete_bytes _ hfz, fun _ hh => ?_, fun h hh => ?_⟩
+    · rw [h1] at hh; cases hh
+    · rw [h1] at hh; exact hno h (by injection hh)
+  · exact v2_gate_auto (gate_set b (Nat.le_refl 12) hg) (v2_version cmd tr addr rest trail b hv) rfl
+  · exact v2_gate_auto (gate_set b (Nat.le_refl 12) hg) (v2_command cmd tr addr rest trail b hv hc) rfl
+  · exact v2_gate_auto (gate_set b (by omega : 12 ≤ 13) hg) (v2_family cmd tr addr rest trail b hf) rfl
+  · exact v2_gate_auto (gate_set b (by omega : 12 ≤ 13) hg) (v2_transport cmd tr addr rest trail b hf ht) rfl
+  · exact v2_gate_auto (gate_set _ (by omega : 12 ≤ 15) (gate_set _ (by omega : 12 ≤ 14) hg))
+      (v2_length cmd tr addr rest trail l hl16 hl) rfl
+
+/-- Non-vacuity (evaluated): a declared length of 11 for an IPv4 header, through auto-detection. -/
+example : Auto.parse (((Spec.V2.encode .proxy .stream (.ipv4 ⟨⟨1,2,3,4⟩, 80, ⟨5,6,7,8⟩, 443⟩) []).set 14 0).set 15 11) =
+    .v1 (.error (.parse .invalidPrefix)) := by decide
+
+/-! ### version 1: the protocol of a line with any number of fields -/
+
+open V1 V1.Blame in
+/-- C12, the protocol element, for lines with any number of fields: `PROXY␠<proto>` followed by
+nothing or by a space and arbitrary CR-free text (subsumes `v1_protocol`; covers a well-formed
+`PROXY UNKNOWN\r\n` whose protocol is replaced, truncated or emptied: `PROXY UNKNOWM\r\n`,
+`PROXY UNK\r\n`, `PROXY \r\n`). -/
+theorem v1_protocol_short {proto tail : B} {c : UInt8} (hproto : sepFree proto)
+    (hcr : crFree tail) (ht : tail = [] ∨ tail.head? = some SP)
+    (h4 : proto ≠ TCP4) (h6 : proto ≠ TCP6) (hu : proto ≠ UNKNOWN)
+    (hlen : (PROXY ++ [SP] ++ proto ++ tail ++ [CR, c]).length ≤ 107) :
+    Blamed (PROXY ++ [SP] ++ proto ++ tail ++ [CR, c]) .invalidProtocol :=
+  G2_protocol_short_entry hproto hcr ht h4 h6 hu hlen
+
+open V1 V1.Blame in
+/-- Non-vacuity: `PROXY UNKNOWM\r\n`, `PROXY UNK\r\n` and `PROXY \r\n` are instances. -/
+example : Blamed (PROXY ++ [SP] ++ [0x55, 0x4E, 0x4B, 0x4E, 0x4F, 0x57, 0x4D] ++ [] ++ [CR, LF]) .invalidProtocol :=
+  v1_protocol_short (by unfold sepFree; decide) (by unfold crFree; decide) (.inl rfl)
+    (by decide) (by decide) (by decide) (by decide)
+open V1 V1.Blame in
+example : Blamed (PROXY ++ [SP] ++ [0x55, 0x4E, 0x4B] ++ [] ++ [CR, LF]) .invalidProtocol :=
+  v1_protocol_short (by unfold sepFree; decide) (by unfold crFree; decide) (.inl rfl)
+    (by decide) (by decide) (by decide) (by decide)
+open V1 V1.Blame in
+example : Blamed (PROXY ++ [SP] ++ [] ++ [] ++ [CR, LF]) .invalidProtocol :=
+  v1_protocol_short (by unfold sepFree; decide) (by unfold crFree; decide) (.inl rfl)
+    (by decide) (by decide) (by decide) (by decide)
+example : V1.parseBytes [0x50,0x52,0x4F,0x58,0x59,0x20,0x55,0x4E,0x4B,0x4E,0x4F,0x57,0x4D,0x0D,0x0A] =
+    .error (.parse .invalidProtocol) := by decide
+
+open V1 V1.Blame in
+/-- `v1_protocol` is the instance of `v1_protocol_short` whose tail is the four remaining fields. -/
+example {proto sa da sp dp : B} {c : UInt8} (hproto : sepFree proto)
+    (hsa : sepFree sa) (hda : sepFree da) (hsp : sepFree sp) (hdp : sepFree dp)
+    (h4 : proto ≠ TCP4) (h6 : proto ≠ TCP6) (hu : proto ≠ UNKNOWN)
+    (hlen : (tcpLine PROXY proto sa da sp dp [CR, c]).length ≤ 107) :
+    Blamed (tcpLine PROXY proto sa da sp dp [CR, c]) .invalidProtocol := by
+  have e : tcpLine PROXY proto sa da sp dp [CR, c] =
+      PROXY ++ [SP] ++ proto ++ ([SP] ++ sa ++ [SP] ++ da ++ [SP] ++ sp ++ [SP] ++ dp) ++ [CR, c] := by
+    simp [tcpLine]
+  rw [e] at hlen ⊢
+  have h0 : crFree ([] ++ [SP] ++ sa) := crFree_app_sp (fun _ h => by cases h) hsa
+  exact v1_protocol_short hproto (crFree_app_sp (crFree_app_sp (crFree_app_sp h0 hda) hsp) hdp)
+    (.inr rfl) h4 h6 hu hlen
+
+/-! ### version 1: address and port hypotheses stated with the grammar of `Spec/V1.lean`
+
+"Invalid for that element" means: not a dotted quad without leading zeros (`Spec.V1.Ipv4Text`,
+TCP4), not an RFC 4291 section 2.2 text form (`Spec.V1.Ipv6Text`, TCP6), not plain decimal
+0–65535 (`Spec.V1.PortText`). The fields before the corrupted one are well-formed in the same
+sense (hence separator free); the corrupted field and those after it must not contain a space
+or a CR (otherwise the number of elements changes). For the ports the payload is whatever
+`parsePort` reports; `port_payload_table` below lists it. -/
+
+section spec
+open V1 V1.Blame
+variable {sa da sp dp : B} {c : UInt8}
+
+/-- C12, source address of a TCP4 line, grammar-level: anything that is not a dotted quad
+(in particular every IPv6 text, `other_family₁`). -/
+theorem v1_source_address_spec
+    (hsa : sepFree sa) (hda : sepFree da) (hsp : sepFree sp) (hdp : sepFree dp)
+    (h : ∀ a, ¬ Spec.V1.Ipv4Text sa a) (hlen : (tcpLine PROXY TCP4 sa da sp dp [CR, c]).length ≤ 107) :
+    Blamed (tcpLine PROXY TCP4 sa da sp dp [CR, c]) .invalidSourceAddress :=
+  v1_source_address hsa hda hsp hdp (parseIpv4_none_of_spec h) hlen
+
+/-- C12, destination address of a TCP4 line, grammar-level. -/
+theorem v1_destination_address_spec {a : Ip4}
+    (hda : sepFree da) (hsp : sepFree sp) (hdp : sepFree dp)
+    (hs : Spec.V1.Ipv4Text sa a) (h : ∀ b, ¬ Spec.V1.Ipv4Text da b)
+    (hlen : (tcpLine PROXY TCP4 sa da sp dp [CR, c]).length ≤ 107) :
+    Blamed (tcpLine PROXY TCP4 sa da sp dp [CR, c]) .invalidDestinationAddress :=
+  v1_destination_address (ipv4Text_sepFree hs) hda hsp hdp ((ipv4Text_iff sa a).mp hs)
+    (parseIpv4_none_of_spec h) hlen
+
+/-- C12, source port of a TCP4 line, grammar-level. -/
+theorem v1_source_port_spec {a b : Ip4}
+    (hsp : sepFree sp) (hdp : sepFree dp)
+    (hs : Spec.V1.Ipv4Text sa a) (hd : Spec.V1.Ipv4Text da b) (h : ∀ p, ¬ Spec.V1.PortText sp p)
+    (hlen : (tcpLine PROXY TCP4 sa da sp dp [CR, c]).length ≤ 107) :
+    ∃ k, parsePort sp = .error k ∧ Blamed (tcpLine PROXY TCP4 sa da sp dp [CR, c]) (.invalidSourcePort k) := by
+  obtain ⟨k, hk⟩ := parsePort_error_of_spec h
+  exact ⟨k, hk, v1_source_port (ipv4Text_sepFree hs) (ipv4Text_sepFree hd) hsp hdp
+    ((ipv4Text_iff sa a).mp hs) ((ipv4Text_iff da b).mp hd) hk hlen⟩
+
+/-- C12, destination port of a TCP4 line, grammar-level. -/
+theorem v1_destination_port_spec {a b : Ip4} {p : UInt16}
+    (hdp : sepFree dp)
+    (hs : Spec.V1.Ipv4Text sa a) (hd : Spec.V1.Ipv4Text da b) (hp : Spec.V1.PortText sp p)
+    (h : ∀ q, ¬ Spec.V1.PortText dp q)
+    (hlen : (tcpLine PROXY TCP4 sa da sp dp [CR, c]).length ≤ 107) :
+    ∃ k, parsePort dp = .error k ∧
+      Blamed (tcpLine PROXY TCP4 sa da sp dp [CR, c]) (.invalidDestinationPort k) := by
+  obtain ⟨k, hk⟩ := parsePort_error_of_spec h
+  exact ⟨k, hk, v1_destination_port (ipv4Text_sepFree hs) (ipv4Text_sepFree hd) (portText_sepFree hp) hdp
+    ((ipv4Text_iff sa a).mp hs) ((ipv4Text_iff da b).mp hd) ((portText_iff sp p).mp hp) hk hlen⟩
+
+/-- C12, source address of a TCP6 line, grammar-level: anything that is not an RFC 4291 text
+form (in particular every dotted quad, `other_family₂`). -/
+theorem v1_tcp6_source_address_spec
+    (hsa : sepFree sa) (hda : sepFree da) (hsp : sepFree sp) (hdp : sepFree dp)
+    (h : ∀ a, ¬ Spec.V1.Ipv6Text sa a) (hlen : (tcpLine PROXY TCP6 sa da sp dp [CR, c]).length ≤ 107) :
+    Blamed (tcpLine PROXY TCP6 sa da sp dp [CR, c]) .invalidSourceAddress :=
+  (v1_tcp6 hsa hda hsp hdp hlen).1 (parseIpv6_none_of_spec h)
+
+/-- C12, destination address of a TCP6 line, grammar-level. -/
+theorem v1_tcp6_destination_address_spec {a : Ip6}
+    (hda : sepFree da) (hsp : sepFree sp) (hdp : sepFree dp)
+    (hs : Spec.V1.Ipv6Text sa a) (h : ∀ b, ¬ Spec.V1.Ipv6Text da b)
+    (hlen : (tcpLine PROXY TCP6 sa da sp dp [CR, c]).length ≤ 107) :
+    Blamed (tcpLine PROXY TCP6 sa da sp dp [CR, c]) .invalidDestinationAddress :=
+  (v1_tcp6 (ipv6Text_sepFree hs) hda hsp hdp hlen).2.1 a ((StdNet.parseIpv6_iff_text sa a).mpr hs)
+    (parseIpv6_none_of_spec h)
+
+/-- C12, source port of a TCP6 line, grammar-level. -/
+theorem v1_tcp6_source_port_spec {a b : Ip6}
+    (hsp : sepFree sp) (hdp : sepFree dp)
+    (hs : Spec.V1.Ipv6Text sa a) (hd : Spec.V1.Ipv6Text da b) (h : ∀ p, ¬ Spec.V1.PortText sp p)
+    (hlen : (tcpLine PROXY TCP6 sa da sp dp [CR, c]).length ≤ 107) :
+    ∃ k, parsePort sp = .error k ∧ Blamed (tcpLine PROXY TCP6 sa da sp dp [CR, c]) (.invalidSourcePort k) := by
+  obtain ⟨k, hk⟩ := parsePort_error_of_spec h
+  exact ⟨k, hk, (v1_tcp6 (ipv6Text_sepFree hs) (ipv6Text_sepFree hd) hsp hdp hlen).2.2.1 a b k
+    ((StdNet.parseIpv6_iff_text sa a).mpr hs) ((StdNet.parseIpv6_iff_text da b).mpr hd) hk⟩
+
+/-- C12, destination port of a TCP6 line, grammar-level. -/
+theorem v1_tcp6_destination_port_spec {a b : Ip6} {p : UInt16}
+    (hdp : sepFree dp)
+    (hs : Spec.V1.Ipv6Text sa a) (hd : Spec.V1.Ipv6Text da b) (hp : Spec.V1.PortText sp p)
+    (h : ∀ q, ¬ Spec.V1.PortText dp q)
+    (hlen : (tcpLine PROXY TCP6 sa da sp dp [CR, c]).length ≤ 107) :
+    ∃ k, parsePort dp = .error k ∧
+      Blamed (tcpLine PROXY TCP6 sa da sp dp [CR, c]) (.invalidDestinationPort k) := by
+  obtain ⟨k, hk⟩ := parsePort_error_of_spec h
+  exact ⟨k, hk, (v1_tcp6 (ipv6Text_sepFree hs) (ipv6Text_sepFree hd) (portText_sepFree hp) hdp hlen).2.2.2.1
+    a b p k ((StdNet.parseIpv6_iff_text sa a).mpr hs) ((StdNet.parseIpv6_iff_text da b).mpr hd)
+    ((portText_iff sp p).mp hp) hk⟩
+
+/-- `1.2.3.4`, `5.6.7.8`, `1.2.3.256`, `::1`, `::2`, `80`, `443`, `65536` -/
+private def t1234 : B := [0x31,0x2E,0x32,0x2E,0x33,0x2E,0x34]
+private def t5678 : B := [0x35,0x2E,0x36,0x2E,0x37,0x2E,0x38]
+private def t123256 : B := [0x31,0x2E,0x32,0x2E,0x33,0x2E,0x32,0x35,0x36]
+private def tcc1 : B := [0x3A,0x3A,0x31]
+private def tcc2 : B := [0x3A,0x3A,0x32]
+private def t80 : B := [0x38,0x30]
+private def t443 : B := [0x34,0x34,0x33]
+private def t65536 : B := [0x36,0x35,0x35,0x33,0x36]
+
+private theorem h1234 : Spec.V1.Ipv4Text t1234 ⟨1,2,3,4⟩ := (ipv4Text_iff _ _).mpr (by decide)
+private theorem h5678 : Spec.V1.Ipv4Text t5678 ⟨5,6,7,8⟩ := (ipv4Text_iff _ _).mpr (by decide)
+private theorem hcc1 : Spec.V1.Ipv6Text tcc1 ⟨[0,0,0,0,0,0,0,0,0,0,0,0,0,0,0,1], rfl⟩ :=
+  (StdNet.parseIpv6_iff_text _ _).mp (by decide)
+private theorem hcc2 : Spec.V1.Ipv6Text tcc2 ⟨[0,0,0,0,0,0,0,0,0,0,0,0,0,0,0,2], rfl⟩ :=
+  (StdNet.parseIpv6_iff_text _ _).mp (by decide)
+private theorem h80 : Spec.V1.PortText t80 80 := (portText_iff _ _).mpr (by decide)
+
+/-! Non-vacuity of the eight grammar-level statements: one corrupted element each (an address of
+the other family, an octet of 256, a port of 65536, an empty port, a signed port). -/
+
+example : Blamed (tcpLine PROXY TCP4 tcc1 t5678 t80 t443 [CR, LF]) .invalidSourceAddress :=
+  v1_source_address_spec (by unfold sepFree; decide) (by unfold sepFree; decide) (by unfold sepFree; decide)
+    (by unfold sepFree; decide) (not_ipv4Text_of_none (by decide)) (by decide)
+example : Blamed (tcpLine PROXY TCP4 t1234 t123256 t80 t443 [CR, LF]) .invalidDestinationAddress :=
+  v1_destination_address_spec (by unfold sepFree; decide) (by unfold sepFree; decide)
+    (by unfold sepFree; decide) h1234 (not_ipv4Text_of_none (by decide)) (by decide)
+example : ∃ k, parsePort t65536 = .error k ∧
+    Blamed (tcpLine PROXY TCP4 t1234 t5678 t65536 t443 [CR, LF]) (.invalidSourcePort k) :=
+  v1_source_port_spec (by unfold sepFree; decide) (by unfold sepFree; decide) h1234 h5678
+    (not_portText_of_error (k := some .posOverflow) (by decide)) (by decide)
+example : ∃ k, parsePort [] = .error k ∧
+    Blamed (tcpLine PROXY TCP4 t1234 t5678 t80 [] [CR, LF]) (.invalidDestinationPort k) :=
+  v1_destination_port_spec (by unfold sepFree; decide) h1234 h5678 h80
+    (not_portText_of_error (k := some .empty) (by decide)) (by decide)
+example : Blamed (tcpLine PROXY TCP6 t1234 tcc2 t80 t443 [CR, LF]) .invalidSourceAddress :=
+  v1_tcp6_source_address_spec (by unfold sepFree; decide) (by unfold sepFree; decide) (by unfold sepFree; decide)
+    (by unfold sepFree; decide) (not_ipv6Text_of_none (by decide)) (by decide)
+example : Blamed (tcpLine PROXY TCP6 tcc1 t5678 t80 t443 [CR, LF]) .invalidDestinationAddress :=
+  v1_tcp6_destination_address_spec (by unfold sepFree; decide) (by unfold sepFree; decide)
+    (by unfold sepFree; decide) hcc1 (not_ipv6Text_of_none (by decide)) (by decide)
+example : ∃ k, parsePort t65536 = .error k ∧
+    Blamed (tcpLine PROXY TCP6 tcc1 tcc2 t65536 t443 [CR, LF]) (.invalidSourcePort k) :=
+  v1_tcp6_source_port_spec (by unfold sepFree; decide) (by unfold sepFree; decide) hcc1 hcc2
+    (not_portText_of_error (k := some .posOverflow) (by decide)) (by decide)
+example : ∃ k, parsePort [0x2B, 0x32] = .error k ∧
+    Blamed (tcpLine PROXY TCP6 tcc1 tcc2 t80 [0x2B, 0x32] [CR, LF]) (.invalidDestinationPort k) :=
+  v1_tcp6_destination_port_spec (by unfold sepFree; decide) hcc1 hcc2 h80
+    (not_portText_of_error (k := none) (by decide)) (by decide)
+
+end spec
+
+/-! ### addresses of the other family -/
+
+/-- C12, "addresses of the other family": a text that `Ipv6Addr::from_str` accepts is refused
+by `Ipv4Addr::from_str` (every RFC 4291 text form contains a colon, no dotted quad does) … -/
+theorem other_family₁ {s : B} {a : Ip6} (h : StdNet.parseIpv6 s = some a) : StdNet.parseIpv4 s = none := by
+  cases h4 : StdNet.parseIpv4 s with
+  | none => rfl
+  | some b => exact (StdNet.not_both_families h4 h).elim
+
+/-- … and conversely. -/
+theorem other_family₂ {s : B} {a : Ip4} (h : StdNet.parseIpv4 s = some a) : StdNet.parseIpv6 s = none := by
+  cases h6 : StdNet.parseIpv6 s with
+  | none => rfl
+  | some b => exact (StdNet.not_both_families h h6).elim
+
+/-- The same at the level of the grammar: no text is both a dotted quad and an RFC 4291 form. -/
+theorem other_family_spec {s : B} {a : Ip4} {b : Ip6} (h4 : Spec.V1.Ipv4Text s a) (h6 : Spec.V1.Ipv6Text s b) :
+    False :=
+  StdNet.not_both_families ((V1.ipv4Text_iff s a).mp h4) ((StdNet.parseIpv6_iff_text s b).mpr h6)
+
+open V1 V1.Blame in
+/-- C12, "addresses of the other family", as instances of the blame theorems: an IPv6 text as
+the source of a TCP4 line, an IPv4 text as the source of a TCP6 line. -/
+theorem v1_source_other_family {sa da sp dp : B} {c : UInt8}
+    (hda : sepFree da) (hsp : sepFree sp) (hdp : sepFree dp) :
+    (∀ a, Spec.V1.Ipv6Text sa a → (tcpLine PROXY TCP4 sa da sp dp [CR, c]).length ≤ 107 →
+      Blamed (tcpLine PROXY TCP4 sa da sp dp [CR, c]) .invalidSourceAddress) ∧
+    (∀ a, Spec.V1.Ipv4Text sa a → (tcpLine PROXY TCP6 sa da sp dp [CR, c]).length ≤ 107 →
+      Blamed (tcpLine PROXY TCP6 sa da sp dp [CR, c]) .invalidSourceAddress) :=
+  ⟨fun a h hlen => v1_source_address (ipv6Text_sepFree h) hda hsp hdp
+      (other_family₁ ((StdNet.parseIpv6_iff_text sa a).mpr h)) hlen,
+   fun a h hlen => (v1_tcp6 (ipv4Text_sepFree h) hda hsp hdp hlen).1
+      (other_family₂ ((ipv4Text_iff sa a).mp h))⟩
+
+/-- Non-vacuity (evaluated): `::1` and `1.2.3.4`. -/
+example : StdNet.parseIpv6 [0x3A,0x3A,0x31] = some ⟨[0,0,0,0,0,0,0,0,0,0,0,0,0,0,0,1], rfl⟩ ∧
+    StdNet.parseIpv4 [0x3A,0x3A,0x31] = none := by decide
+example : StdNet.parseIpv4 [0x31,0x2E,0x32,0x2E,0x33,0x2E,0x34] = some ⟨1,2,3,4⟩ ∧
+    StdNet.parseIpv6 [0x31,0x2E,0x32,0x2E,0x33,0x2E,0x34] = none := by decide
+
+/-! ### the 107-byte limit at the text entry point -/
+
+open V1 V1.Blame in
+/-- C12, the 107-byte limit at the text entry point (`TryFrom<&str>`) when the first CR lies
+beyond byte 105: `HeaderTooLong`, provided the window ends on a character boundary … -/
+theorem v1_str_too_long {x : B} {n : Nat} (hw : windowLength x = some n) (hn : 107 < n)
+    (hb : Utf8.isCharBoundary x n = true) : parseStr x = .error .headerTooLong :=
+  G8_parseStr_too_long hw hn hb
+
+open V1 V1.Blame in
+/-- … and `InvalidSuffix` when it does not (the byte after the CR is the lead byte of a multi-byte
+character) — whatever the length of the window. Both errors are terminal. -/
+theorem v1_str_not_boundary {x : B} {n : Nat} (hw : windowLength x = some n)
+    (hb : Utf8.isCharBoundary x n = false) : parseStr x = .error .invalidSuffix :=
+  parseStr_not_boundary hw hb
+
+/-- Both are terminal. -/
+example : V1.ParseError.headerTooLong.isIncomplete = false ∧ V1.ParseError.invalidSuffix.isIncomplete = false :=
+  ⟨rfl, rfl⟩
+
+/-- Non-vacuity (evaluated): 106 letters, CR, LF (window of 108 bytes); three letters, CR and
+the two bytes of `é` (the window would end inside the character). -/
+example : V1.windowLength (List.replicate 106 0x41 ++ [0x0D, 0x0A]) = some 108 ∧
+    Utf8.isCharBoundary (List.replicate 106 0x41 ++ [0x0D, 0x0A]) 108 = true ∧
+    V1.parseStr (List.replicate 106 0x41 ++ [0x0D, 0x0A]) = .error .headerTooLong := by decide +kernel
+example : V1.windowLength [0x41, 0x41, 0x41, 0x0D, 0xC3, 0xA9] = some 5 ∧
+    Utf8.valid [0x41, 0x41, 0x41, 0x0D, 0xC3, 0xA9] = true ∧
+    Utf8.isCharBoundary [0x41, 0x41, 0x41, 0x0D, 0xC3, 0xA9] 5 = false ∧
+    V1.parseStr [0x41, 0x41, 0x41, 0x0D, 0xC3, 0xA9] = .error .invalidSuffix := by decide
+
+/-! ### the payload of the port errors -/
+
+open V1 in
+/-- C12, the payload of `InvalidSourcePort` / `InvalidDestinationPort`
+(`Option<IntErrorKind>`), row by row: empty text `Some(Empty)`; a leading `+` or a leading
+zero (other than `0` itself) `None` — both are refused before `u16::from_str`; a first byte
+that is neither a digit nor `+` (in particular `-`) `Some(InvalidDigit)`; plain decimal beyond
+65535 `Some(PosOverflow)`, also when something follows (`99999x`: the overflow is met first);
+plain decimal within range, other than `0`, followed by a non-digit (`6553x`)
+`Some(InvalidDigit)` (`0x` falls under the leading-zero row). -/
+theorem port_payload_table :
+    parsePort [] = .error (some .empty) ∧
+    (∀ s : B, parsePort (0x2B :: s) = .error none) ∧
+    (∀ s : B, s ≠ [] → parsePort (0x30 :: s) = .error none) ∧
+    (∀ s : B, parsePort (0x2D :: s) = .error (some .invalidDigit)) ∧
+    (∀ (c : UInt8) (s : B), ¬ (0x30 ≤ c ∧ c ≤ 0x39) → c ≠ 0x2B →
+      parsePort (c :: s) = .error (some .invalidDigit)) ∧
+    (∀ (s : B) (n : Nat), Spec.V1.Decimal s n → 65535 < n → parsePort s = .error (some .posOverflow)) ∧
+    (∀ (s : B) (n : Nat) (r : B), Spec.V1.Decimal s n → 65535 < n →
+      parsePort (s ++ r) = .error (some .posOverflow)) ∧
+    (∀ (s : B) (n : Nat) (c : UInt8) (r : B), Spec.V1.Decimal s n → n ≤ 65535 → n ≠ 0 →
+      ¬ (0x30 ≤ c ∧ c ≤ 0x39) → parsePort (s ++ c :: r) = .error (some .invalidDigit)) :=
+  ⟨parsePort_nil, parsePort_plus, fun _ hs => parsePort_leading_zero hs, parsePort_minus,
+   fun _ s hc hp => parsePort_head_invalid hc hp s,
+   fun _ _ hd hn => parsePort_overflow hd hn,
+   fun _ _ r hd hn => parsePort_overflow_first hd hn r,
+   fun _ _ _ r hd hn h0 hc => parsePort_digit_first hd hn h0 hc r⟩
+
+/-- Non-vacuity: `65536` is plain decimal beyond 65535. -/
+example : Spec.V1.Decimal [0x36,0x35,0x35,0x33,0x36] 65536 ∧ 65535 < 65536 :=
+  ⟨(V1.decimal_iff_canon _ _).mpr ⟨by unfold Canon; decide, by decide⟩, by decide⟩
+
+/-- The rows, evaluated: empty, `+2`, `01`, `-1`, `65536`, `99999x`, `6553x`. -/
+example : V1.parsePort [] = .error (some .empty) ∧
+    V1.parsePort [0x2B, 0x32] = .error none ∧
+    V1.parsePort [0x30, 0x31] = .error none ∧
+    V1.parsePort [0x2D, 0x31] = .error (some .invalidDigit) ∧
+    V1.parsePort [0x36,0x35,0x35,0x33,0x36] = .error (some .posOverflow) ∧
+    V1.parsePort [0x39,0x39,0x39,0x39,0x39,0x78] = .error (some .posOverflow) ∧
+    V1.parsePort [0x36,0x35,0x35,0x33,0x78] = .error (some .invalidDigit) := by decide
 
 end C12
